@@ -331,7 +331,6 @@ func checkC02(c *Check) {
 	checkC02OpenSent(c)
 }
 
-
 func returnOrdinal(fn *ssa.Function, r *ssa.Return) int {
 	n := 0
 	for _, b := range fn.Blocks {
